@@ -60,9 +60,13 @@ func (k msgServer) AddFeeToDispute(goCtx context.Context,
 	if msg.Amount.Amount.GT(fee) {
 		msg.Amount.Amount = fee
 	}
-	// dispute fee payer
+	// dispute fee payer; a payer who already paid into this dispute keeps one record with the sum of its payments
+	paidSoFar := msg.Amount.Amount
+	if previous, err := k.Keeper.DisputeFeePayer.Get(ctx, collections.Join(dispute.DisputeId, sender.Bytes())); err == nil {
+		paidSoFar = paidSoFar.Add(previous.Amount)
+	}
 	if err := k.Keeper.DisputeFeePayer.Set(ctx, collections.Join(dispute.DisputeId, sender.Bytes()), types.PayerInfo{
-		Amount:   msg.Amount.Amount,
+		Amount:   paidSoFar,
 		FromBond: msg.PayFromBond,
 	}); err != nil {
 		return nil, err
